@@ -127,7 +127,12 @@ noncomputable def renφ (pre ident : List α) (φ : List α → List α) (p : Li
 
 theorem compressAt_inv {added : List (List α)} {cur : List α} {k : Nat} {s : FLState α}
     {φ : List α → List α} (inv : FLInv added cur (k + 1) s φ) (hadd : added ≠ []) :
-    ∃ s' φ', flCompressAt s (cur.take (k + 1)) = .ok s' ∧ FLInv added cur k s' φ' := by
+    ∃ s' φ', flCompressAt s (cur.take (k + 1)) = .ok s' ∧ FLInv added cur k s' φ' ∧
+      ((s'.trans = s.trans ∧ s'.finals = s.finals ∧ ∃ row, alookup (cur.take (k + 1)) s.trans = some row ∧
+          sigGet (decide (cur.take (k + 1) ∈ s.finals), row) s.sigs = none ∧
+          s'.sigs = s.sigs ++ [((decide (cur.take (k + 1) ∈ s.finals), row), cur.take (k + 1))]) ∨
+       (s'.sigs = s.sigs ∧ ∀ q ∈ avals s.sigs,
+          (∀ a, look s' q a = look s q a) ∧ (q ∈ s'.finals ↔ q ∈ s.finals))) := by
   have hk1 : k + 1 ≤ cur.length := inv.kle
   have hcur : cur ∈ added := inv.curTrie hadd
   have hin : ∀ i, InTrie added (cur.take i) := fun i => ⟨cur, hcur, List.take_prefix _ _⟩
@@ -157,7 +162,7 @@ theorem compressAt_inv {added : List (List α)} {cur : List α} {k : Nat} {s : F
   | none =>
     -- register the state
     simp only
-    refine ⟨_, φ, rfl, ?_⟩
+    refine ⟨_, φ, rfl, ?_, Or.inl ⟨rfl, rfl, row, rfl, hsig, rfl⟩⟩
     have hav : ∀ q, q ∈ avals (s.sigs ++ [((decide (cur.take (k + 1) ∈ s.finals), row), cur.take (k + 1))]) ↔
         q ∈ avals s.sigs ∨ q = cur.take (k + 1) := by
       intro q; simp [avals]
@@ -327,6 +332,14 @@ theorem compressAt_inv {added : List (List α)} {cur : List α} {k : Nat} {s : F
       intro q hq
       have := ((inv.regIff q).mp hq).2
       exact ⟨this (k + 1) (Nat.le_refl _), this k (by omega)⟩
+    have hfrozen : ∀ q ∈ avals s.sigs,
+        (∀ a, look s' q a = look s q a) ∧ (q ∈ s'.finals ↔ q ∈ s.finals) := by
+      intro q hq
+      obtain ⟨hq1, hq2⟩ := hreg_ne q hq
+      refine ⟨fun a => ?_, ?_⟩
+      · rw [hlook]; simp only [hq2, if_false, hq1]
+      · rw [hfinals]; simp [hq1]
+    refine ⟨?_, Or.inr ⟨hsigs, hfrozen⟩⟩
     refine
       { kle := by omega
         curTrie := inv.curTrie
